@@ -185,6 +185,10 @@ pub fn degenerate() -> Vec<Case> {
     for src in MISC {
         out.push(Case::single("boundary degenerate", src.to_string()));
     }
+    // a runtime WITH a context type (variables `cx: u64`, `flag: bool`): the paths only such a runtime has
+    for src in WITH_CONTEXT {
+        out.push(Case::single("boundary degenerate [ctx]", src.to_string()));
+    }
     // the same declarations in a module of their own (the message prints a path)
     for (decl, ty, name) in SHAPES.iter().filter(|s| !s.0.is_empty()) {
         for u in ["-> i32 { match v { Nothing => 0 } }", "{ let w = m.$N.Nothing; }", "{ let w = m.$N { nope: 1 }; }", "{ v.nope(); }"] {
@@ -311,8 +315,8 @@ const MISC: &[&str] = &[
 /// `errorFns` is pinned to these names in Props/C06TcLists) with the kind of
 /// report (`error_kind`: first line, quoted parts blanked) the boundary stream
 /// must produce at least once. `error_simple` takes its text from the caller;
-/// `error_constant_uses_context` needs a runtime with a context type (the
-/// default runtime has none): no representative.
+/// `error_constant_uses_context` needs a runtime with a context type: the cases
+/// of kind `… [ctx]` are compiled with the oracle's second runtime.
 pub const ERROR_KINDS: &[(&str, &str)] = &[
     ("error_simple", "expected # type parameters, got #"),
     ("error_duplicate_fields", "field _ appears multiple times in the same record"),
@@ -322,6 +326,7 @@ pub const ERROR_KINDS: &[(&str, &str)] = &[
     ("error_expected_type", "expected type, but found "),
     ("error_expected_module", "expected a module, but found "),
     ("error_recursive_constant", "constant _ is recursively defined."),
+    ("error_constant_uses_context", "constant _ depends on a context variable."),
     ("error_declared_twice", "item _ is declared multiple times"),
     ("error_not_defined", "cannot find value _ in this scope"),
     ("error_number_of_arguments_dont_match", "function _ takes # arguments but # arguments were given"),
@@ -347,6 +352,48 @@ pub const ERROR_KINDS: &[(&str, &str)] = &[
     ("error_no_method_on_type", "no method _ on type _"),
     ("error_no_field_or_method_on_type", "no field or method _ on type _"),
     ("error_cannot_assign_to_this_expression", "cannot assign to this expression"),
+];
+
+/// compiled with the second runtime of the oracle (context variables `cx: u64`, `flag: bool`)
+const WITH_CONTEXT: &[&str] = &[
+    "const K: u64 = cx;\nfn main() {}",
+    "const K: u64 = cx + 1;\nconst L: u64 = K;\nfn main() -> u64 { L }",
+    "fn f() -> u64 { cx }\nconst K: u64 = f();\nfn main() {}",
+    "fn f() -> u64 { g() }\nfn g() -> u64 { cx }\nconst K: u64 = f();\nfn main() {}",
+    "const K: bool = flag;\nfn main() {}",
+    "const K: bool = !flag && cx == 0;\nfn main() {}",
+    "const K: String = f\"{cx}\";\nfn main() {}",
+    "const K: List[u64] = [cx];\nfn main() {}",
+    "const K: u64 = match Option.Some(cx) { Some(x) => x, None => 0 };\nfn main() {}",
+    "fn main() -> u64 { cx }",
+    "fn main() { cx = 1; }",
+    "fn main() { cx += 1; }",
+    "fn main() { cx(); }",
+    "fn main() { cx.cx; }",
+    "fn main() { cx.new(); }",
+    "fn main() { cx.to_string().new(); }",
+    "fn main() -> i32 { match cx { A => 1 } }",
+    "fn main() { match cx { } }",
+    "fn main() { match flag { } }",
+    "fn main(cx: u64) -> u64 { cx }",
+    "fn main() { let cx = 1; cx; }",
+    "fn main() { for cx in [1] { cx; } }",
+    "fn cx() {}\nfn main() { cx(); }",
+    "const cx: u64 = 1;\nfn main() {}",
+    "record cx {}\nfn main() {}",
+    "enum cx {}\nfn main() {}",
+    "import cx;\nfn main() {}",
+    "import cx.x;\nfn main() {}",
+    "fn main(v: cx) {}",
+    "fn main() -> String { f\"{cx}{flag}\" }",
+    "fn main() { flag && cx; }",
+    "fn main() { [cx, flag]; }",
+    "fn main() { cx == flag; }",
+    "fn main() { Option.Some(cx) == Option.None; }",
+    "test t { if cx == 0 { accept } else { reject } }",
+    "filtermap main() { if flag { accept cx } else { reject } }",
+    "filtermap main(cx: u64) { accept cx }",
+    "enum Void {}\nfn main(v: Void) -> u64 { match v { Nothing => cx } }",
 ];
 
 // ------------------------------------------------------- method receivers
